@@ -87,10 +87,13 @@ def parseRepr (s : String) : Option Bool :=
 structure AnyIdx where
   C : Type
   inst : IdxCont C Nat
+  aux : IdxAux C
   state : C
 
 namespace AnyIdx
-def mk' (C : Type) [inst : IdxCont C Nat] : AnyIdx := { C := C, inst := inst, state := inst.default }
+def fmtList' (xs : List String) : String := "[" ++ ", ".intercalate xs ++ "]"
+def mk' (C : Type) [inst : IdxCont C Nat] [aux : IdxAux C] : AnyIdx := { C := C, inst := inst, aux := aux, state := inst.default }
+def caps (a : AnyIdx) : String := "cap " ++ fmtList' ((a.aux.heap a.state).map fun p => toString p.2)
 def fmtList (xs : List String) : String := "[" ++ ", ".intercalate xs ++ "]"
 def obs (a : AnyIdx) : String :=
   let it := (a.inst.iter a.state).map toString
@@ -130,9 +133,9 @@ def setOwner (e : Env) (h entry : String) : Env :=
 end Env
 
 def newIdx : String → Option AnyIdx
-  | "idx:vec" => some (AnyIdx.mk' (VecIdx Nat 8))
-  | "idx:list" => some (AnyIdx.mk' IndexList)
-  | "idx:opt" => some (AnyIdx.mk' IndexOptimized)
+  | "idx:vec" => some (AnyIdx.mk' (Capd (VecIdx Nat 8)))
+  | "idx:list" => some (AnyIdx.mk' (Capd IndexList))
+  | "idx:opt" => some (AnyIdx.mk' (Capd IndexOptimized))
   | _ => none
 
 def fmtPairs (ps : List (Nat × Nat)) : String :=
@@ -319,6 +322,15 @@ def stepInner (newBank : String → Option Bank) (env : Env) (line : String) : E
   | ["iobs", h] =>
     match env.idxs.lookup h with
     | some c => (env, c.obs)
+    | none => (env, "bad-op")
+  | ["ireserve", h, n] =>
+    match env.idxs.lookup h, n.toNat? with
+    | some c, some n =>
+      ({ env with idxs := (h, { c with state := c.aux.reserve c.state n }) :: env.idxs.filter (·.1 != h) }, "ok")
+    | _, _ => (env, "bad-op")
+  | ["icap", h] =>
+    match env.idxs.lookup h with
+    | some c => (env, c.caps)
     | none => (env, "bad-op")
   | ["spush", h, x] =>
     match env.strides.lookup h, x.toNat? with
